@@ -171,7 +171,7 @@ func DocsFor(c *Case) []Doc {
 	case isStructDefault(c.Schema):
 		return structDefaultDocs
 	}
-	var out []Doc
+	out := unionListDocs(c)
 	for _, d := range c.Schema.Documents() {
 		out = append(out, Doc{Text: d})
 	}
